@@ -30,7 +30,7 @@ class Scale(tuple):
         if tuning is None:
             tuning = Tuning.et(12)
             name = tuning.name
-        else:
+        elif not isinstance(tuning, Tuning):
             tuning = Tuning(tuning)
         if max(degrees) > len(tuning) - 1:
             raise ValueError(
